@@ -79,6 +79,14 @@ CHECKS["C20"] = dict(
          "race-freedom and isolation under every schedule (Go memory model); schedules themselves are not enumerated.",
     note=TRUST + S3NOTE, technique="static analysis: SSA effect/ownership scan (stores, map updates, address escapes) with positive witnesses", design="§4 C20")
 
+CHECKS["C15"] = dict(
+    text="Generator-side (S1) crash-freedom rules for every loader-accepted document: optional kin-openapi members (table derived from the openapi3 type declarations minus loader "
+         "guarantees) are nil-tested before any dereference, with an interprocedural fixed point for callees that dereference parameters; no unchecked type assertion; explicit "
+         "panics only reachable through text/template (which recovers them); every index/slice site proven by the compiler or a checked idiom; main exits non-zero on error. "
+         "Termination and message quality are not decided.",
+    note=TRUST + " kin-openapi's loader guarantees (non-nil *Ref wrappers with non-nil Value) are assumed; text/template's safeCall recovers panics.",
+    technique="static analysis: SSA dominance-based nil-guard rule with interprocedural summaries + compiler prove pass residue + call-graph confinement", design="§4 C15")
+
 NA_REASON = {}
 DEFAULT_NA = "not claimed yet: static checker for this property is still under construction (design in DESIGN.md §4)"
 
